@@ -111,6 +111,10 @@ def _decl(j):
 def call_finder(finder, target, epoch):
     """(instant as JDE, reported extra value or None)."""
     site = "Moon." + finder
+    if int(epoch.jde() * 8.0) % 2:
+        # a target built at run time (read from a file, joined, lower-cased): equal to the
+        # documented value, not the same object as any literal in the library
+        target = "".join(list(target))
     res = getattr(Moon, finder)(epoch, target)
     extra = None
     if finder in ("moon_perigee_apogee", "moon_maximum_declination"):
@@ -359,6 +363,40 @@ def body_event(case):
     return {"labels": labels, "nontrivial": nontrivial, "show": show}
 
 
+# ------------------------------------------------------------------------ default targets
+
+DEFAULT_TARGET = {"moon_phase": "new", "moon_perigee_apogee": "perigee",
+                  "moon_passage_nodes": "ascending", "moon_maximum_declination": "northern"}
+
+
+def _flat(res):
+    if isinstance(res, tuple):
+        return [res[0].jde()] + [float(x) for x in res[1:]]
+    return [res.jde()]
+
+
+def body_defaults(case):
+    """The target may be left out (documented default): the four finders asked one after the other
+    for one and the same epoch, in a generated order, answer what they answer for the default
+    spelled out."""
+    j, order = case["jde"], case["order"]
+    names = sorted(DEFAULT_TARGET)
+    e = Epoch(j)
+    got = []
+    for i in order:
+        f = names[i]
+        got.append((f, _flat(getattr(Moon, f)(e))))
+    for f, g in got:
+        want = _flat(getattr(Moon, f)(Epoch(j), DEFAULT_TARGET[f]))
+        if len(g) != len(want) or any(abs(a - b) > 1e-9 for a, b in zip(g, want)):
+            raise Violation("Moon.%s(Epoch(%r)) with the target left out, asked in the order %s, "
+                            "gave %r; with target=%r it gives %r"
+                            % (f, j, [names[i] for i in order], g, DEFAULT_TARGET[f], want),
+                            site="Moon." + f, kind="default_target", finder=f)
+        check_near(f, DEFAULT_TARGET[f], j, g[0], _year_of(j))
+    return {"n": len(order), "labels": ["default_target_calls"], "nontrivial": len(set(order)) > 1}
+
+
 # ------------------------------------------------------------------------ walks
 
 def _walk(finder, target, epochs, what):
@@ -458,7 +496,8 @@ def _kf_far_from_query(clause, case, v):
 KNOWN_SIGNATURES = {"KF-C15-far-from-query": _kf_far_from_query}
 
 CLAUSES = {"position": body_position, "illum": body_illum, "secular": body_secular,
-           "event": body_event, "sweep": body_sweep, "dates": body_dates}
+           "event": body_event, "sweep": body_sweep, "dates": body_dates,
+           "defaults": body_defaults}
 
 
 # ------------------------------------------------------------------------ strategies
@@ -476,7 +515,7 @@ def epoch_cases():
 
 JULIAN_CENTURY_LEAP = [y for y in range(-2000, 1583, 100) if y % 400 != 0]
 SPECIAL_YEARS = JULIAN_CENTURY_LEAP + [-2000, -1999, -1, 0, 1, 4, 1580, 1582, 1583, 1584, 1600,
-                                       1700, 1900, 2000, 2024, 2100, 2400, 3000, 3998, 3999]
+                                       1700, 1900, 1999, 2000, 2024, 2100, 2400, 3000, 3998, 3999]
 
 
 def date_queries():
@@ -512,13 +551,22 @@ def event_cases_for(pair):
 
 def sweep_cases():
     step = st.one_of(st.floats(0.5, 3.0), st.sampled_from([1.0, 2.0, 2.0, 0.5, 3.0]))
+    # one walk in six straddles the reference epochs of the series (event count k = 0, between
+    # 1999-12-08 and 2000-02-01 for the four finders), where a sign or truncation slip in k shows
+    start = st.one_of(jdes(), jdes(), jdes(), jdes(), jdes(),
+                      st.floats(-110.0, 20.0).map(lambda d: round(2451545.0 + d, 5)))
     return st.builds(lambda p, j, s: {"finder": p[0], "target": p[1], "jde0": j,
                                       "step": round(s, 3), "n": 40},
-                     st.sampled_from(PAIRS), jdes(), step)
+                     st.sampled_from(PAIRS), start, step)
+
+
+def defaults_cases():
+    return st.builds(lambda j, o: {"jde": j, "order": o}, jdes(),
+                     st.lists(st.integers(0, 3), min_size=2, max_size=5))
 
 
 STRATS = {"position": epoch_cases, "illum": epoch_cases, "secular": epoch_cases,
-          "sweep": sweep_cases}
+          "sweep": sweep_cases, "defaults": defaults_cases}
 
 
 # ------------------------------------------------------------------------ tasks
@@ -549,6 +597,7 @@ def tasks(tier, seed):
             out.append(Task("t_event", pair=i, shard=r, n=n * mult // k))
     for sh in range(8 * k):
         out.append(Task("t_given", clause="sweep", shard=sh, n=2500 * mult // k))
+    out.append(Task("t_given", clause="defaults", shard=0, n=600 * mult))
     ys = dates_years(tier, seed)
     nsh = 4 if tier == "quick" else 32
     for i in range(nsh):
